@@ -22,6 +22,7 @@ import (
 // byte 85 or A0, which a-h/parse's byte-wise White_Space test takes for U+0085 / U+00A0 - the shape below is reported: a
 // genuine defect of the unchanged tree (known_findings.json), narrow (the replacement byte, the place, the prediction).
 const srcTextShape = "byte-85-or-A0-at-start-of-element-content-dropped"
+const srcLinesShape = "byte-85-or-A0-at-start-of-line-in-element-dropped"
 const srcTextFamily = "source text: `<p>T</p>` renders the bytes of T (leading ASCII white space dropped)"
 
 var stLead = []string{"", "", "", " ", "\t", "  ", " \t ", "\v", "\f", "\x85", "\xa0", " \x85", "\x85 ", "\xa0\x85", "\t\xa0 ", " \x85\xa0\t"}
@@ -152,4 +153,128 @@ func srcTextFamily_(c *core.Ctx) {
 	c.Oblige("correspondence", srcTextFamily+": compiled render = model/SrcTextParse.v doc_code on every case", tieOK, "")
 	c.Oblige("correspondence", srcTextFamily+": compiled render = spec/SrcText.v doc_spec on every case outside the known shape", propOK, "")
 	c.Extra["source_text_cases"] = len(cases)
+}
+
+// srcLinesFamily: the same from the source bytes for SEVERAL lines in one element (props/C02.v:
+// C02_source_lines_rendered_as_written_partial): `<p>\n L1 \n L2 ... \n\t</p>`, every line a T of the fragment with its own
+// indentation.  Known shape where a later (or the first) line starts with a byte 85 / A0: the byte-wise white-space run that is
+// the trailing space of the text in front of it swallows the byte.
+const srcLinesFamilyName = "source text: the lines of `<p>...</p>` render their bytes (line break + indentation = one space between lines)"
+
+func srcLinesFamily(c *core.Ctx) {
+	r := c.Rng.Fork()
+	type lc struct {
+		ls           []string
+		name         string
+		guard        bool
+		mCode, mSpec string
+	}
+	var all [][]string
+	mk := func() string {
+		return rng.Pick(r, []string{"\t\t", "\t\t", "  ", "\t \t", ""}) + rng.Pick(r, stLead) + rng.Pick(r, stCore) + rng.Pick(r, stTail)
+	}
+	// small first: two lines, the byte in front of the second
+	all = append(all, []string{"\t\tA la carte", "\t\t\xa05 EUR"}, []string{"\t\tUn", "\t\t\x85Deux", "\t\tTrois"}, []string{"\t\tL1  ", "\t\tL2"}, []string{"\xa0X1", "\t\tX2"})
+	for n := c.N(30, 400); n > 0; n-- {
+		k := 1 + r.Intn(4)
+		ls := make([]string, k)
+		for i := range ls {
+			ls[i] = mk()
+		}
+		all = append(all, ls)
+	}
+	reqs := make([]drv.Req, len(all))
+	for i, ls := range all {
+		a := make([][]byte, len(ls))
+		for j, l := range ls {
+			a[j] = []byte(l)
+		}
+		reqs[i] = drv.Req{Fn: "srclines", Args: a}
+	}
+	m := c.Model(reqs)
+	body := func(ls []string) string { return "<p>\n" + strings.Join(ls, "\n") + "\n\t</p>" }
+	var cases []lc
+	acceptOK := true
+	for i, ls := range all {
+		if len(m[i]) != 4 {
+			c.Oblige("correspondence", srcLinesFamilyName+": the model answers", false, fmt.Sprintf("%q: %q", ls, m[i]))
+			return
+		}
+		if string(m[i][0]) != "1" {
+			c.Hist("source lines: a line outside the fragment (not judged)")
+			continue
+		}
+		src := "package main\n\ntempl SLX0" + tgen.Sig + " {\n\t" + body(ls) + "\n}\n"
+		if _, err := probe.Prepare("SLX", src); err != nil {
+			acceptOK = false
+			c.Fail("tie", srcLinesFamilyName+": a file of the fragment is accepted by parse + generate", "", exact(map[string]any{"source": src}), err.Error())
+			continue
+		}
+		cases = append(cases, lc{ls: ls, name: fmt.Sprintf("SLT%d", len(cases)), guard: string(m[i][1]) == "1", mCode: string(m[i][2]), mSpec: string(m[i][3])})
+	}
+	c.Oblige("correspondence", srcLinesFamilyName+": every file the model puts in the fragment is accepted by parse + generate", acceptOK, "")
+	if len(cases) == 0 {
+		c.Oblige("correspondence", srcLinesFamilyName+": cases generated", false, "no case in the fragment")
+		return
+	}
+	var sb strings.Builder
+	sb.WriteString("package main\n\n")
+	for _, k := range cases {
+		fmt.Fprintf(&sb, "templ %s%s {\n\t%s\n}\n\n", k.name, tgen.Sig, body(k.ls))
+	}
+	f, err := probe.Prepare("SLT", sb.String())
+	if err != nil {
+		c.Oblige("correspondence", srcLinesFamilyName+": the file of all cases is accepted by parse + generate", false, err.Error())
+		return
+	}
+	prog, err := buildProbe([]probe.File{f})
+	if err != nil {
+		c.Fail("property", "generated code compiles", "", exact(map[string]any{"build_log": trunc(prog.BuildLog, 3000), "first_source": trunc(sb.String(), 4000)}), "go build of code generated from the source-lines file failed")
+		prog.Close()
+		return
+	}
+	defer prog.Close()
+	pc := make([]probe.Case, len(cases))
+	for i, k := range cases {
+		pc[i] = probe.Case{Template: k.name, Args: tgen.Args{S0: "a"}}
+	}
+	one := func(i int) string {
+		return "package main\n\ntempl " + cases[i].name + tgen.Sig + " {\n\t" + body(cases[i].ls) + "\n}\n"
+	}
+	res, err := runProbe(c, prog, pc, one)
+	if err != nil {
+		c.Oblige("correspondence", srcLinesFamilyName+": probe program runs", false, err.Error())
+		return
+	}
+	tieOK, propOK, known := true, true, 0
+	for i, k := range cases {
+		c.Count(fmt.Sprintf("srclines/%q", k.ls))
+		impl := strings.TrimPrefix(res[i], "OK:")
+		if impl != k.mCode {
+			tieOK = false
+			if c.NFails(srcLinesFamilyName+": compiled render = model/SrcTextParse.v") < 4 {
+				c.Fail("tie", srcLinesFamilyName+": compiled render = model/SrcTextParse.v", "", exact(map[string]any{"lines": strings.Join(k.ls, "\n"), "source": one(i), "impl": res[i], "model": k.mCode}),
+					"the compiled generated code renders other bytes than the model of parser + generator on the source-lines fragment")
+			}
+		}
+		switch {
+		case impl == k.mSpec:
+			c.Hist(fmt.Sprintf("source lines: %d line(s) rendered as written", len(k.ls)))
+		case !k.guard && impl == k.mCode:
+			known++
+			c.Hist("source lines: byte 85/A0 at the front of a line dropped (known shape)")
+			c.Fail("property", srcLinesFamilyName, srcLinesShape, exact(map[string]any{"lines": strings.Join(k.ls, "\n"), "source": one(i), "impl": impl, "denoted": k.mSpec}),
+				"a byte 0x85 / 0xA0 at the front of a line inside an element is taken for white space by the parser and left out of the document")
+		default:
+			propOK = false
+			c.Hist("source lines: NOT rendered as written")
+			if c.NFails(srcLinesFamilyName) < 4+known {
+				c.Fail("property", srcLinesFamilyName, "", exact(map[string]any{"lines": strings.Join(k.ls, "\n"), "source": one(i), "impl": impl, "denoted": k.mSpec}),
+					"the rendered document does not hold the bytes of the static text lines as they stand in the template file")
+			}
+		}
+	}
+	c.Oblige("correspondence", srcLinesFamilyName+": compiled render = model/SrcTextParse.v doc_code_lines on every case", tieOK, "")
+	c.Oblige("correspondence", srcLinesFamilyName+": compiled render = spec/SrcText.v doc_spec_lines on every case outside the known shape", propOK, "")
+	c.Extra["source_lines_cases"] = len(cases)
 }
